@@ -230,7 +230,7 @@ PROPS = {
               ops=None, exhaustive=False),
     "C11": _p("model_checking", ["keys"], ["C11."],
               "keys generated by rcgen (generate_for every algorithm, generate_rsa_for 2048/3072(/4096) under aws-lc-rs; unavailable generation must be an error) held to every clause of a loaded key; key type (Ed25519, P-256, P-384, P-521, RSA-2048, RSA-3072; 4096 in thorough) x origin/format (OpenSSL PKCS#8, SEC1, PKCS#1; rcgen-generated PKCS#8 v1/v2) x 9 loading entry points x requested algorithm (none + every algorithm of the build, all misfits) x back end (ring, aws-lc-rs); every successful load signs, re-exports and re-loads through every one of the 9 entry points (told the key's own algorithm where one is asked for); Ed25519 keys whose public key begins with 0x00 / 0xff / 0x30 / 0x04 or ends with 0x00; plus the algorithm table event; distinct by (key type, format, entry, requested algorithm, back end)",
-              ops=["KeyLoad", "KeyGen", "AlgTable"], exhaustive=True),
+              ops=["KeyLoad", "KeyGen", "KeyWrapped", "AlgTable"], exhaustive=True),
     "C14": _p("model_checking", ["pem", "cli"], ["C14."],
               "certificate / CSR / CRL for common-name lengths 0..149 (every residue of the DER length modulo 48 is required by a coverage predicate evaluated by TLC) x algorithms (Ed25519 over the full span, P-256/P-384/RSA-2048 sampled, multi-kilobyte RSA certificates with 40 SANs), private and public key PEM per algorithm, the private-key PEM of every key origin (OpenSSL PKCS#8 v1, SEC1, PKCS#1, rcgen-generated) offered to each of rcgen's three PEM loaders, remote keys (no DER accessor, hence no text); the four files of every run of the command line tool over MC_Cli.Cases (strict RFC 7468 shape, also when written over longer files of an earlier run); distinct by (kind, algorithm, DER length)",
               ops=["Pem", "PemContent", "CliRun"], exhaustive=False),
